@@ -202,10 +202,10 @@ class Dusq():
 
         Performs equivalent operation on durable .sdb at .key if any
         """
-        if not isinstance(val, (RegDom, IceRegDom)):
-            raise HierError(f"Expected RegDom instance got {val}")
+        if not isinstance(value, (RegDom, IceRegDom)):
+            raise HierError(f"Expected RegDom instance got {value}")
          # so can't mutate
-        val = val if val.__dataclass_params__.frozen else deepcopy(val)
+        value = value if value.__dataclass_params__.frozen else deepcopy(value)
         try:
             self._oset.remove(value)
         except KeyError as ex:
